@@ -59,6 +59,17 @@ def table(D, E):
                 for k in range(lb):
                     y2 = list(y); y2[k] += 7
                     C("isequal", dict(t="idx", v=x), dict(t="idx", v=y2), form)
+    # variants over (scalar, n-d array): same / different active alternative, against each other and against plain values
+    def ei(tag, val): return dict(t="either", tag=tag, val=val)
+    alts = [ei("L", dict(t="num", v=3)), ei("L", dict(t="num", v=4)), ei("R", nd([2])), ei("R", nd([2], 1)), ei("R", nd([1, 2])), ei("R", nd([3]))]
+    plains = [dict(t="num", v=3), dict(t="num", v=5), nd([2]), nd([2], 0), nd([2, 1])]
+    for x in alts:
+        for y in alts:
+            C("isequal", x, y, "either_either")
+            C("isclose", x, y, "either_either", eps4=2)
+        for y in plains:
+            C("isequal", x, y, "either_plain"); C("isequal", y, x, "plain_either")
+            C("isclose", x, y, "either_plain", eps4=2); C("isclose", y, x, "plain_either", eps4=2)
     for v in range(-2, 3):
         for w in range(-2, 3):
             C("isequal", dict(t="num", v=v), dict(t="num", v=w), "num")
